@@ -168,6 +168,11 @@ int sim_posix_memalign(void **out, size_t al, size_t n) {
   *out = p; return 0;
 }
 void *sim_aligned_alloc(size_t al, size_t n) { (void)al; return sim_malloc(n); }
+void *sim_memalign(size_t al, size_t n) { (void)al; return sim_malloc(n); }
+void *sim_valloc(size_t n) { return sim_malloc(n); }
+void *sim_reallocarray(void *p, size_t a, size_t b) { size_t n = a * b; if (b && n / b != a) { errno = ENOMEM; return nullptr; } return sim_realloc(p, n); }
+char *sim_strndup(const char *s, size_t n) { size_t l = strnlen(s, n); char *p = (char *)sim_malloc(l + 1); if (p) { memcpy(p, s, l); p[l] = 0; } return p; }
+char *sim_strdup(const char *s) { return sim_strndup(s, strlen(s)); }
 
 void *sim_mmap(void *addr, size_t len, int prot, int flags, int fd, off_t off) {
   MemLayer &m = MemLayer::get(); int t = cur_task();
